@@ -13,6 +13,44 @@ IMAGES = np.array(list(itertools.product((-1, 0, 1), repeat=3)), dtype=np.int64)
 NONZERO = np.array([s for s in IMAGES if np.any(s != 0)], dtype=np.int64)                  # 26
 
 
+_RC = {}
+
+
+def needed_R(V, key=None):
+    """Smallest search radius R in {1, 2, 3} for which mic.min_image (which centres its search on the rounded
+    fractional displacement) returns the same distance as R = 4 on a 17^3 grid covering the whole residual cube
+    [-0.5, 0.5]^3 of fractional displacements.  The candidate set relative to the residual is the same for every
+    displacement, so this measures the radius the cell needs; it only saves time, the oracle stays brute force."""
+    from vlib.refmodels import mic
+    if key is not None and key in _RC:
+        return _RC[key]
+    ax = np.linspace(-0.5, 0.5, 17)
+    fr = np.array(list(itertools.product(ax, repeat=3)))
+    disp = fr @ np.asarray(V, np.float64)
+    ref = np.concatenate([mic.min_image(disp[a:a + 1024], V, 4)[0] for a in range(0, len(disp), 1024)])
+    out = 4
+    for R in (1, 2, 3):
+        d = np.concatenate([mic.min_image(disp[a:a + 2048], V, R)[0] for a in range(0, len(disp), 2048)])
+        if np.all(np.abs(d - ref) <= 1e-12):
+            out = R
+            break
+    if key is not None:
+        _RC[key] = out
+    return out
+
+
+def _needed_R_job(a):
+    return needed_R(a[1])
+
+
+def measure_radii(ctx, menu, stored_vectors):
+    """Fill the radius cache for every menu cell (parallel, before the main fork). stored_vectors(cell) -> 3x3."""
+    todo = [(c["name"], np.asarray(stored_vectors(c), np.float64)) for c in menu if c["name"] not in _RC]
+    for (name, _v), R in zip(todo, ctx.pmap(_needed_R_job, todo)):
+        _RC[name] = R
+    return dict(_RC)
+
+
 def _rot(seed):
     return grids.generic_rotations(1, seed)[0]
 
@@ -75,6 +113,8 @@ def systems(quick):
         geom[list(B)] = gB
         bl = [(A[0], A[1]), (A[1], A[2]), (B[0], B[1])]
         for pi, perm in enumerate(itertools.permutations(bl)):
+            if quick and pi not in (0, 5):
+                continue
             for anch in ("A", "AB"):
                 add("mix6/%s/perm=%d/anchors=%s" % (lab, pi, anch), 6, [A, B, I], perm, geom, cen, False,
                     anchors=[0] if anch == "A" else [0, 1])
@@ -131,24 +171,22 @@ def side_of_bond(n, bonds, bond):
 
 def scatters(sysv, full):
     """Integer image assignment per atom, shape (F, n, 3).  Small molecules (<= 3 atoms): `full` -> every assignment of
-    {-1,0,1}^3 per atom (27^n); else every single- and double-atom scatter.  Larger systems: the identity, every
+    {-1,0,1}^3 per atom (27^n); else atom 0 fixed and every assignment for the other atoms (27^(n-1): every relative
+    image configuration).  Larger systems: the identity, every
     single-atom scatter, every cut of a single (non-ring) bond with either side moved, every single-molecule shift."""
     n = sysv["n"]
     if sysv["small"] and (full or n <= 2):
         idx = np.array(list(itertools.product(range(27), repeat=n)))
         return IMAGES[idx]
+    if sysv["small"]:
+        # atom 0 stays in the home image, every other atom takes every image: all relative configurations
+        idx = np.array(list(itertools.product(range(27), repeat=n - 1)))
+        sc = np.zeros((len(idx), n, 3), np.int64)
+        sc[:, 1:] = IMAGES[idx]
+        return sc
     rows = [np.zeros((n, 3), np.int64)]
     groups = [[i] for i in range(n)]
-    if sysv["small"]:
-        F = []
-        for i, j in itertools.combinations(range(n), 2):
-            for si in NONZERO:
-                for sj in NONZERO:
-                    r = np.zeros((n, 3), np.int64)
-                    r[i], r[j] = si, sj
-                    F.append(r)
-        rows += F
-    else:
+    if True:
         for b in sysv["bonds"]:
             s = side_of_bond(n, sysv["bonds"], b)
             if s is not None:
